@@ -348,6 +348,8 @@ void run_c14(const RunOpts& o, Result& res) {
   vs_sim_begin(plan.seed, nthreads, (int)plan.cfg_int("policy", 0), (int)plan.cfg_int("pct_depth", 1), 3 * nops + 16, budget);
   vs_set_guard_points((int)plan.cfg_int("guard_points", 1));
   vs_set_cv_spurious((int)plan.cfg_int("cv_spurious", 0));
+  { const char* sl = getenv("VS_SPIN_LIMIT");   // measurement aid: VS_SPIN_LIMIT=0 switches the forced yields off
+    vs_set_spin(sl ? atol(sl) : plan.cfg_int("spin_limit", 250000), (int)plan.cfg_int("spin_budget", 60)); }
   for (int t = 0; t < nthreads; ++t) {
     if (!pre[t].empty()) vs_set_preempts(t, pre[t].data(), (int)pre[t].size());
     long late = plan.cfg_int(("late_" + std::to_string(t)).c_str(), 0);
@@ -375,6 +377,9 @@ void run_c14(const RunOpts& o, Result& res) {
   { long w = 0, n = 0, e = 0, to = 0; vs_cv_stats(&w, &n, &e, &to);
     if (w || n) { res.num["f.condvar_wait"] = (double)w; res.num["n.condvar_notify"] = (double)n; res.num["n.condvar_notify_without_waiter"] = (double)e; res.num["f.condvar_timeout"] = (double)to; res.num["f.condvar_spurious_wakeup"] = (double)vs_cv_spurious_fired(); } }
   res.num["f.preempt"] = (double)vs_preempts_fired();
+  if (vs_spin_yields()) res.num["f.spin_yield"] = (double)vs_spin_yields();
+  res.num["max_entries_between_points"] = (double)vs_max_entry_gap();
+  { int pr = -1; unsigned tg = 0; int r = vs_max_entry_gap_where(&pr, &tg); res.str["d.max_gap_between"] = std::to_string(pr) + "->" + std::to_string(r) + "@" + std::to_string(tg); }
   res.num["f.stall"] = (double)vs_stalls_fired();
   res.num["f.prewarm"] = nprewarm;
   res.num["p.nested_guard_depth2"] = vs_guard_max_nest() >= 2 ? 1 : 0;
@@ -406,8 +411,10 @@ void run_c14(const RunOpts& o, Result& res) {
 
   if (rc != 0) {
     // threads are parked for good: report and leave without joining
-    res.fail(rc == 1 ? "deadlock" : rc == 3 ? "stuck" : "progress", rc == 1 ? "deadlock" : rc == 3 ? "stuck" : "progress",
+    res.fail(rc == 1 ? "deadlock" : rc == 3 ? "stuck" : rc == 4 ? "livelock" : "progress", rc == 1 ? "deadlock" : rc == 3 ? "stuck" : rc == 4 ? "livelock" : "progress",
              rc == 1 ? "all remaining simulated threads are blocked: on initialisation guards / locks owned by blocked threads, or in condition-variable waits nobody is left to notify"
+             : rc == 4 ? "a thread kept spinning: after " + std::to_string(plan.cfg_int("spin_budget", 60)) + " forced yields in a row (each after " + std::to_string(plan.cfg_int("spin_limit", 250000)) +
+                         " function entries without a scheduling point, every other thread given the chance to run in between) it is still in the same wait"
              : rc == 3 ? "a thread never reached its next scheduling point, and the run did not finish even when every thread was left running freely (spin wait / livelock)"
                        : "run did not finish within " + std::to_string(budget) + " scheduler decisions", vs_steps());
     dump_events(); record();
